@@ -99,3 +99,12 @@ package types
 //@   vars r Addr, s Addr
 //@   call k := GetStreamKey(r, s)
 //@   show k[0] != 1
+
+// ---------------------------------------------------------------- parameters
+
+//@ func validateBaseValidatorFee(i)
+//@   inline
+
+//@ func Params.Validate(p) (err)
+//@   props C16 C12
+//@   ensures @fee_range err == nil ==> !isnil(p.ValidatorFee) && 0 <= dval(p.ValidatorFee) && dval(p.ValidatorFee) <= ONE
